@@ -74,6 +74,16 @@ def yearOfLex (v11 : Bool) (neg : Bool) (yd : Str) : Except Err Int :=
   if yd.head? = some '0' ∧ yd.length > 4 then .error .value
   else lexYear v11 (if neg then -(digitsVal yd : Int) else (digitsVal yd : Int))
 
+/-- `microseconds.strip('0')` is non-empty: some fraction digit is not `0` -/
+def fracNonZero (fd : Option Str) : Bool :=
+  match fd with
+  | none => false
+  | some ds => ds.any (· != '0')
+
+/-- `fromstring` (C10's end-of-day fix): `if kwargs.get('hour') == 24 and microseconds.strip('0'): raise ValueError`
+— the untruncated fraction of an hour-24 literal must consist of zeros -/
+def endOfDayBad (h : Nat) (fd : Option Str) : Bool := h == 24 && fracNonZero fd
+
 /-- `DateTime.fromstring` / `DateTime10.fromstring` -/
 def dateTimeOfLex (v11 : Bool) (s : Str) : Except Err DT :=
   match parseDateBody (pyStripAll s) with
@@ -81,7 +91,8 @@ def dateTimeOfLex (v11 : Bool) (s : Str) : Except Err DT :=
     match parseTimeBody rest with
     | some (h, mi, sec, fd, tail) =>
       match parseTzTail tail with
-      | some tz => do
+      | some tz =>
+        if endOfDayBad h fd then .error .value else do
         let y ← yearOfLex v11 neg yd
         mk y mo d h mi sec (fracUs fd) tz
       | none => .error .value
@@ -104,11 +115,11 @@ def timeOfLex (s : Str) : Except Err DT :=
   match parseTimeBody (pyStripAll s) with
   | some (h, mi, sec, fd, tail) =>
     match parseTzTail tail with
-    | some tz => timeMk h mi sec (fracUs fd) tz
+    | some tz => if endOfDayBad h fd then .error .value else timeMk h mi sec (fracUs fd) tz
     | none => .error .value
   | none => .error .value
 
-/-- trigger of finding F11r: an end-of-day literal `24:00:00.000000d…` whose fraction is non-zero only below the
+/-- the literals of the former finding F11r (repaired by C10's end-of-day fix, now rejected by `endOfDayBad`): an end-of-day literal `24:00:00.000000d…` whose fraction is non-zero only below the
 microsecond: the fraction is truncated to six digits, so the literal is accepted as `24:00:00` although
 `endOfDayFrag` (XSD 1.1) only allows zeros after the point -/
 def endOfDaySubMicro (s : Str) : Bool :=
